@@ -16,7 +16,9 @@ EXPLANATION = (
     'indirect-call targets, apply_procedure lies on no cycle once the edges into eval_expression (non-tail sub- '
     'expressions) are removed; (frames-dropped) the trampoline loop accumulates nothing per iteration; (derived- '
     'tail) by abstract expansion of grammar.sld, every R7RS tail sub-form of '
-    'begin/let/let*/cond/case/and/or/when/unless ends up in a tail position of the core forms.')
+    'begin/let/let*/cond/case/and/or/when/unless ends up in a tail position of the core forms. Call leaves '
+    'include calls whose operator is itself a call or a conditional; what a run did before it could no longer be '
+    'followed counts as evidence.')
 NOT_DECIDED = ("measured stack depth and live heap per iteration (run-time quantities); equality of the loop's result "
                "with the bounded iteration.")
 
